@@ -156,7 +156,7 @@ impl<'a> World<'a> {
                 p.state = PState::Done(out.lines().last().unwrap_or("ERR no-output").trim().to_string());
                 return;
             }
-            if t0.elapsed().as_secs() > 20 { p.state = PState::Done("ERR probe-hang".into()); unsafe { libc::kill(-(p.child.id() as i32), libc::SIGKILL); } let _ = p.child.wait(); return; }
+            if t0.elapsed().as_secs() > 240 { p.state = PState::Done("ERR probe-hang".into()); unsafe { libc::kill(-(p.child.id() as i32), libc::SIGKILL); } let _ = p.child.wait(); return; }
             std::thread::sleep(std::time::Duration::from_micros(300));
         }
     }
